@@ -475,7 +475,7 @@ theorem pres_cachedOp_ctxOff {P : Err → Prop} (hP : ErrPred P) {env : Env} (ho
     (hrun : ∀ op e o, Spec SameStore P (run op e o)) (x : Expr) (c : Nat) (op : Op) (o : V) :
     Spec SameStore P (cachedOp env run x c op o) := by
   have hR := sameStore_rel
-  unfold cachedOp existsReq getReq setReq cacheDisabled
+  unfold cachedOp cacheLookup existsReq getReq setReq cacheDisabled
   simp only [hoff, if_true]
   cases op <;> simp only [] <;> pres_auto hR hP hrun
 
@@ -577,7 +577,7 @@ theorem pres_cachedOp (env : Env) (x : Expr) (c : Nat) (op : Op) (o : V) : Spec 
     unfold getReq; pres_auto hC.toStRel hP hrun with (exact pres_raise hC.toStRel hP (hP.other _))
   have hset : ∀ v, Spec R P (setReq env run x c o v) := by
     intro v; unfold setReq; pres_auto hC.toStRel hP hrun with (exact hs _)
-  unfold cachedOp
+  unfold cachedOp cacheLookup
   cases op <;> simp only [] <;> pres_auto hC.toStRel hP hrun with (exact hset _)
 
 omit hrun in
